@@ -215,6 +215,7 @@ Definition L_IP4_SRC : nat * nat := (26%nat, 4%nat).       (* 14 + IP4.Src() *)
 Definition L_IP6_SRC : nat * nat := (22%nat, 16%nat).      (* 14 + IP6.Src() *)
 Definition L_ARP_SHA : nat * nat := (22%nat, 6%nat).       (* 14 + arp[8:14] *)
 Definition L_ARP_SPA : nat * nat := (28%nat, 4%nat).       (* 14 + arp[14:18] *)
+Definition L_ARP_TPA : nat * nat := (38%nat, 4%nat).       (* 14 + ARP.DstIP() *)
 Definition L_DHCP_XID : nat * nat := (46%nat, 4%nat).      (* 42 + DHCP4.XId() *)
 Definition L_DHCP_CHADDR : nat * nat := (70%nat, 6%nat).   (* 42 + DHCP4.CHAddr() *)
 Definition fsl (l : nat * nat) : src := FrameSl (fst l) (snd l).
